@@ -5,7 +5,7 @@ From PV Require Import Expr.Syntax Expr.Grammar Expr.Parser Expr.ProofsEval Expr
 Import ListNotations.
 Open Scope nat_scope.
 
-(* ---- trees in which every operand sits at a level its position admits (the image of parenthesize) ---- *)
+(* ---- trees in which every operand sits at a level its position allows (the image of parenthesize) ---- *)
 Fixpoint wfpb (e : expr) : bool :=
   match e with
   | ELit _ | EIdent _ => true
